@@ -8,6 +8,7 @@ Monitors built in (recorded in self.violations):
   * current_action() probes against a shadow stack before, inside and after every construct (C04).
 """
 
+import os
 import threading
 import warnings
 
@@ -41,6 +42,19 @@ SER = {
 _RealThread = threading.Thread
 
 
+_STDLIB_SEQ = [0]
+
+
+class _Sink(object):
+    """A minimal ILogger."""
+
+    def __init__(self):
+        self.got = []
+
+    def write(self, dictionary, serializer=None):
+        self.got.append(dictionary)
+
+
 class Interp(object):
     def __init__(self, tape=None, remote_fork=None, finish_outside=True, ser_hook=None):
         self.tape = tape
@@ -54,6 +68,8 @@ class Interp(object):
         self.ser_hook = ser_hook  # wraps serializer functions (C13)
         self.tls = threading.local()
         self.after_api = None  # called after every eliot API call that returned (C11 acknowledgements)
+        self._stdlib = None
+        self._stdlib_lock = threading.Lock()
         self.explicit_loggers = False  # pass an explicit eliot.Logger() to the calls that take one, for a third of the nodes
         self.allow_defer = False  # run remote nodes marked "defer" only after the whole program (parent already finished)
         self.deferred = []
@@ -75,6 +91,36 @@ class Interp(object):
         if self.explicit_loggers and isinstance(nid, int) and nid % 3 == 0:
             return (eliot.Logger(),)
         return ()
+
+    def _stdlib_logger(self):
+        import logging
+        with self._stdlib_lock:
+            if self._stdlib is None:
+                from eliot.stdlib import EliotHandler
+                lg_ = logging.Logger("vf.stdlib")  # an object of its own, not the registry's: one handler per interpreter
+                lg_.propagate = False
+                lg_.setLevel(logging.DEBUG)
+
+                class _Handler(EliotHandler):
+                    def createLock(self):
+                        # no handler-level lock: emit() runs eliot code that the line-granular scheduler may suspend, and a real
+                        # lock held across a suspension would block the other threads for real
+                        self.lock = None
+                lg_.addHandler(_Handler())
+                self._stdlib = lg_
+        return self._stdlib
+
+    def _presink(self, m, nid):
+        """Part of the Message objects are first written, from a context without an action, to a separate logger object (an
+        in-memory audit sink) and only then to the log proper: the second write must be unaffected by the first."""
+        if not (self.explicit_loggers and isinstance(nid, int) and nid % 4 == 1):
+            return
+        import contextvars
+        sink = _Sink()
+        self.api("Message.write(sink)", contextvars.Context().run, m.write, sink)
+        self.count("msg:written to a sink first")
+        if len(sink.got) != 1 or sink.got[0].get("nid") != nid:
+            self.viol("a message written to an explicit logger object reached it %d times" % len(sink.got))
 
     def api(self, what, fn, *a, **kw):
         """Call an eliot API; it must not raise."""
@@ -219,6 +265,7 @@ class Interp(object):
         elif style == "Message.new.write":
             ok, m = self.api("Message.new", Message.new, message_type=t, **fields)
             if ok:
+                self._presink(m, node["nid"])
                 self.api("Message.write", m.write, *self.lg(node["nid"]))
         elif style == "Message.bind.write":
             # fields split between new() and one or two bind() calls; bind must not lose or overwrite earlier fields
@@ -234,6 +281,14 @@ class Interp(object):
                         self.viol("Message.bind modified the message it was called on")
                     if ok:
                         self.api("Message.write", m3.write)
+        elif style == "stdlib":
+            # through the standard library's logging package and eliot.stdlib.EliotHandler; the handler is created and attached
+            # wherever the program first needs it (usually inside some action)
+            lg_ = self._stdlib_logger()
+            text = "stdlib message nid=%s" % (node["nid"],)
+            self.api("logging.Logger.warning", lg_.warning, "stdlib message nid=%s", node["nid"])
+            t, decl = "eliot:stdlib", None
+            fields = {"log_level": "WARNING", "logger": lg_.name, "message": text, "nid": node["nid"]}
         elif style == "MessageType.log":
             mt = self._message_type(t, decl)
             self.api("MessageType.log", mt.log, **fields)
@@ -241,6 +296,7 @@ class Interp(object):
             mt = self._message_type(t, decl)
             ok, m = self.api("MessageType()", mt, **fields)
             if ok:
+                self._presink(m, node["nid"])
                 self.api("Message.write", m.write, *self.lg(node["nid"]))
         else:
             raise AssertionError(style)
@@ -621,10 +677,28 @@ class Interp(object):
                     raise
                 return holder
 
-            ok, g = self.api("preserve_context", preserve_context, f)
+            # the callable handed over is a function, a functools.partial, an object with __call__ or a bound method
+            ckind = ("function", "partial", "instance", "method")[node["nid"] % 4] if isinstance(node["nid"], int) else "function"
+            self.count("preserve_context:" + ckind)
+            call_args = (1,)
+            if ckind == "function":
+                passed = f
+            elif ckind == "partial":
+                import functools
+                passed = functools.partial(f, 1)
+                call_args = ()
+            else:
+                class _Callable(object):
+                    def __call__(self, a, b=None):
+                        return f(a, b)
+
+                    def method(self, a, b=None):
+                        return f(a, b)
+                passed = _Callable() if ckind == "instance" else _Callable().method
+            ok, g = self.api("preserve_context", preserve_context, passed)
             if not ok:
                 return
-            if g is f:
+            if g is passed:
                 self.viol("preserve_context returned f itself although an action is current")
             self._attach(gt_children, gt)
             self.note("reserved", uuid=cur.task_uuid, tid=None, nid=node["nid"])
@@ -634,7 +708,7 @@ class Interp(object):
                 out = None
                 res = None
                 try:
-                    res = g(1, b=2)
+                    res = g(*call_args, b=2)
                 except BaseException as e:
                     out = e
                 if out is not holder.get("exc"):
